@@ -51,7 +51,7 @@ type spec struct {
 	extra  [nLevels][]string
 	noFont bool // leave the font-size ladder out
 	// rootPseudo: every generated pseudo-element of the ROOT element (html::before, ::after,
-	// ::marker, ::footnote-call, ::footnote-marker) is styled with a font size (7px) that no
+	// ::marker, ::first-line, ::first-letter, ::footnote-call, ::footnote-marker) is styled with a font size (7px) that no
 	// level of the ladder has. Those styles are computed with element == root, among the other
 	// pseudo-elements and before the page contexts: nothing of theirs may reach another style
 	// (in particular the root font size that rem refers to is the root ELEMENT's).
@@ -60,7 +60,7 @@ type spec struct {
 
 // rootPseudoRule styles every pseudo-element the root can have; it comes first in the sheet so
 // that the rule of the html::before position wins over it.
-const rootPseudoRule = "html::before,html::after,html::marker,html::footnote-call,html::footnote-marker{content:'r';font-size:7px}"
+const rootPseudoRule = "html::before,html::after,html::marker,html::first-line,html::first-letter,html::footnote-call,html::footnote-marker{content:'r';font-size:7px}"
 
 func (s *spec) decls() (d [nLevels][]string) {
 	p := s.p
